@@ -126,6 +126,15 @@ def concat_family(shape):
     op = _Opaque()
     fam = [[], [op], [1], ["1"], ["a b"], [" 1"], ["[1, 2]"], ["[1, ", "2]"], [1, 2], ["[", 1, ", ", op, "]"], ["[", 1, ",", 2, ",", 3, "]"],
            ["'", "a", "'"], [None], [None, None], ["1", ""], ["", ""], ["(", "1", ",", ")"], [1.5], ["x", 1], [op, op]]
+    # every way a literal can start (also: no leading digit, continuation dots, leading newline / comment / line continuation,
+    # string prefixes, signs, keywords) and end
+    starts = [".5", ".5e3", "...", "\n5", "\n\n[1]", "#c\n5", "# c\n\n(1, 2)", "\\\n5", "\t\n5", "\f5", "-1", "+1", "- 1", "~1", "None", "True", "False", "b'a'", "B'a'", "r'a'", "R'a'",
+              "u'a'", "U'a'", "rb'a'", "Rb'a'", "bR'a'", '"a"', "\'\'\'a\'\'\'", "(1)", "{1}", "{}", "[]", "()", "0x1f", "0b1", "0o7", "1j", "1e3", "1_000", "1.", "5 ", "5\n", "5#c", "5 # c\n",
+              "[1,\n2]", "1+2j", "-.5", "(.5)", " .5", " 5", "5\x0c", "\ufeff5"]
+    for t in starts:
+        fam.append([t])
+        fam.append([t[:1], t[1:]])
+        fam.append(["", t])
     return fam
 
 
@@ -285,6 +294,99 @@ def install_iter_specs(I):
     I.as_sseq = as_sseq
 
 
+
+# ast.parse(text, mode="eval") / ast.literal_eval(tree) as partial functions of the text: whether they succeed and what they
+# return are uninterpreted (nothing about the first character or any other fact about the text implies failure)
+P_ok = z3.Function("ast.parse.succeeds", Obj, z3.BoolSort())
+F_tree = z3.Function("ast.parse.tree", Obj, Obj)
+E_ok = z3.Function("ast.literal_eval.succeeds", Obj, z3.BoolSort())
+F_val = z3.Function("ast.literal_eval.value", Obj, Obj)
+
+
+def lit_ok(r):
+    return z3.And(P_ok(r), E_ok(F_tree(r)))
+
+
+def lit_val(r):
+    return F_val(F_tree(r))
+
+
+def install_literal_specs(I):
+    generic_parse = A.abstract_fn("ast.parse", returns="obj", raises=PARSE_RAISES)
+    generic_eval = A.abstract_fn("ast.literal_eval", returns="obj", raises=LITERAL_EVAL_RAISES)
+
+    def partial(name, ok, fn, raises, generic, shape_ok):
+        def h(I_, st, args, kwargs, node):
+            if not shape_ok(args, kwargs):
+                return generic(I_, st, args, kwargs, node)  # some other function of the text: results unrelated to lit()
+            r = to_term(args[0], "obj")
+            out = []
+            for cls in raises:
+                s2 = st.fork()
+                s2.assume(z3.Not(ok(r)))
+                e = Exc(cls, (), tag=f"{name}#{len(s2.trace)}", origin=getattr(node, "lineno", None))
+                e.from_call = name
+                s2.trace.append(Event("call", name, args, kwargs, e, lineno=getattr(node, "lineno", None)))
+                out.append((s2, Raised(e)))
+            st.assume(ok(r))
+            v = Sym(fn(r), "obj")
+            st.trace.append(Event("call", name, args, kwargs, v, lineno=getattr(node, "lineno", None)))
+            out.append((st, v))
+            return out
+        return h
+
+    I.specs[("fn", id(N.parse))] = partial("ast.parse", P_ok, F_tree, PARSE_RAISES, generic_parse,
+                                           lambda a, k: len(a) == 1 and k == {"mode": "eval"})
+    I.specs[("fn", id(N.literal_eval))] = partial("ast.literal_eval", E_ok, F_val, LITERAL_EVAL_RAISES, generic_eval,
+                                                  lambda a, k: len(a) == 1 and not k)
+
+
+def install_text_adapter(I):
+    """A value known to be a str on the current path (an opaque atom v with isinstance(v, str)) behaves as the string
+    py_str_obj(v) under slicing, indexing, len, `in` and str methods (setup links v == str2obj(py_str_obj(v)))."""
+    from pyvc.smt import feasible
+    from pyvc.values import BoundMethod
+    from pyvc import models as M
+
+    def text_of(st, v):
+        if isinstance(v, Sym) and v.k == "obj" and not feasible(st.pc + [z3.Not(isinst_fn(str)(v.t))], 2000):
+            return Sym(py_str_obj(v.t), "str", v.tags)
+        return None
+
+    orig_getslice, orig_getitem, orig_contains = I.getslice, I.getitem, I.contains
+
+    def getslice(st, obj, sl, node=None):
+        return orig_getslice(st, text_of(st, obj) or obj, sl, node)
+
+    def getitem(st, obj, idx, node=None):
+        return orig_getitem(st, text_of(st, obj) or obj, idx, node)
+
+    def contains(st, container, item, node=None):
+        return orig_contains(st, text_of(st, container) or container, text_of(st, item) or item, node)
+
+    I.getslice, I.getitem, I.contains = getslice, getitem, contains
+
+    def h_len(I_, st, args, kwargs, node):
+        t = text_of(st, args[0])
+        return None if t is None else [(st, Sym(z3.Length(t.t), "int"))]
+
+    I.specs["len_obj"] = h_len
+
+    def h_getattr(I_, st, args, kwargs, node):
+        o, name = args
+        return [(st, BoundMethod(o, name))] if text_of(st, o) is not None and hasattr(str, name) else None
+
+    I.specs["getattr_obj"] = h_getattr
+
+    def h_method(I_, st, args, kwargs, node):
+        t = text_of(st, args[0])
+        if t is None:
+            return None
+        return M.str_method(I_, st, t, args[1], list(args[2:]), kwargs, node)
+
+    I.specs["method_obj"] = h_method
+
+
 # ------------------------------------------------------------------------------------------------
 # native_concat
 # ------------------------------------------------------------------------------------------------
@@ -302,8 +404,8 @@ class NativeConcat(Renamed, VC):
 
     def configure(self, I):
         install_iter_specs(I)
-        I.specs[("fn", id(N.parse))] = A.abstract_fn("ast.parse", returns="obj", raises=PARSE_RAISES)
-        I.specs[("fn", id(N.literal_eval))] = A.abstract_fn("ast.literal_eval", returns="obj", raises=LITERAL_EVAL_RAISES)
+        install_literal_specs(I)
+        install_text_adapter(I)
 
     def setup(self, I, st):
         if self.shape == "list":
@@ -314,6 +416,10 @@ class NativeConcat(Renamed, VC):
             s = A.sseq(st, "values", "obj")
             self.arr, self.n = s.arr, s.n
             self.values = st.alloc(HIter(s, 0, tag="generator"), initial=True)
+        from pyvc.smt import str2obj
+        x = z3.Select(self.arr, 0)
+        # a str value is its own text: str(v) is v (instantiated for the one element that can itself be the raw text)
+        st.assume(z3.Implies(isinst_fn(str)(x), x == str2obj(py_str_obj(x))))
         return [self.values], {}
 
     # ---- postconditions --------------------------------------------------------------------
@@ -322,8 +428,11 @@ class NativeConcat(Renamed, VC):
         return not out.raised
 
     def p_value(self, pre, out):
+        """whole-view, semantic: for EVERY text, the result is lit(text) when ast.literal_eval(ast.parse(text, mode="eval"))
+        succeeds and the text otherwise - whether or not (and how often) the function chose to call the parser"""
         if out.raised:
             return None
+        from pyvc.smt import str2obj
         n = self.n
         first = z3.Select(self.arr, 0)
         isstr = isinst_fn(str)(first)
@@ -331,31 +440,25 @@ class NativeConcat(Renamed, VC):
         nothing = not parses and not lits and not joins
         B = z3.BoolVal
         v = out.value
+        vt = to_term(v, "obj")
         case_empty = B(v is None and nothing)
-        case_obj = z3.And(B(nothing), to_term(v, "obj") == first) if v is not None else B(False)
-        # text cases
-        if len(parses) != 1 or parses[0].kwargs.get("mode") != "eval" or len(parses[0].args) != 1 or set(parses[0].kwargs) != {"mode"}:
-            text = B(False)
+        case_obj = z3.And(B(nothing), vt == first) if v is not None else B(False)
+
+        def text(r):
+            return z3.If(lit_ok(r), vt == lit_val(r), vt == r)
+
+        single = z3.And(B(not joins), text(first))
+        if len(joins) == 1 and joins[0].args[0] == "" and joins[0].kwargs["k"] == "str":
+            ja, jn = joins[0].kwargs["arr"], joins[0].kwargs["n"]
+            j = z3.Int(fresh_name("j"))
+            multi = z3.And(jn == n, z3.ForAll([j], z3.Implies(z3.And(0 <= j, j < n), z3.Select(ja, j) == py_str_obj(z3.Select(self.arr, j)))),
+                           text(str2obj(joins[0].result.t)))
         else:
-            raw = parses[0].args[0]
-            p_res = parses[0].result
-            if isinstance(p_res, Exc):
-                tail = (not lits) and (v is raw)
-            elif len(lits) == 1 and len(lits[0].args) == 1 and lits[0].args[0] is p_res and not lits[0].kwargs:
-                tail = (v is raw) if isinstance(lits[0].result, Exc) else (v is lits[0].result)
-            else:
-                tail = False
-            single = z3.And(B(not joins), to_term(raw, "obj") == first)
-            if len(joins) == 1 and joins[0].args[0] == "" and joins[0].result is raw and joins[0].kwargs["k"] == "str":
-                ja, jn = joins[0].kwargs["arr"], joins[0].kwargs["n"]
-                j = z3.Int(fresh_name("j"))
-                multi = z3.And(jn == n, z3.ForAll([j], z3.Implies(z3.And(0 <= j, j < n), z3.Select(ja, j) == py_str_obj(z3.Select(self.arr, j)))))
-            else:
-                multi = B(False)
-            text = z3.And(B(bool(tail)), z3.Implies(n == 1, single), z3.Implies(n >= 2, multi))
+            multi = B(False)
         return z3.And(z3.Implies(n == 0, case_empty),
                       z3.Implies(z3.And(n == 1, z3.Not(isstr)), case_obj),
-                      z3.Implies(z3.Or(n >= 2, z3.And(n == 1, isstr)), text))
+                      z3.Implies(z3.And(n == 1, isstr), single),
+                      z3.Implies(n >= 2, multi))
 
     def p_consumed(self, pre, out):
         """a generator is drawn to its end exactly once (nothing is left behind, nothing is read twice)"""
@@ -380,6 +483,14 @@ class NativeConcat(Renamed, VC):
         if out.raised:
             w["escaping"] = out.value.cls.__name__ if out.value.cls else out.value.within.__name__
             w["from"] = getattr(out.value, "from_call", "")
+        elif n >= 1 and not A.calls(out, "ast.parse") and (first_is_str or n >= 2):
+            w["early_return_without_parse"] = True
+            try:
+                j = A.calls(out, "str.join")
+                t = j[0].result.t if j else py_str_obj(z3.Select(self.arr, 0))
+                w["model_text_prefix"] = str(model_value(model, t))[:8]
+            except Exception:
+                pass
         return w
 
     def finding_key(self, res):
@@ -665,7 +776,44 @@ def replay_codegen(w):
                 probs.append(f"finalize environment: {src!r} renders {got!r}, documented {ref_native(want_nodes)!r}")
     except Exception as ex:
         probs.append(f"finalize environment: {type(ex).__name__}: {ex}")
-    return (bool(probs), "; ".join(probs) or "generated code of the replay templates has no str()/escape() wrapper and renders as documented")
+    probs += fold_twins()
+    return (bool(probs), "; ".join(probs)[:1500] or "generated code of the replay templates has no str()/escape() wrapper and renders as documented")
+
+
+def fold_twins():
+    """compile-time folded constants against their run-time twins (hunt reports C34_1, C34_2)"""
+    import asyncio
+    from decimal import Decimal
+    from fractions import Fraction
+    from jinja2.nativetypes import NativeEnvironment
+
+    class Missing:
+        def __repr__(self):
+            return "MISSING"
+
+    MISSING = Missing()
+    cases = [({}, '{{ ["a"|safe] }}', '{{ [x|safe] }}', {"x": "a"}), ({}, '{{ ("a"|safe, 1) }}', '{{ (x|safe, 1) }}', {"x": "a"}),
+             ({}, '{{ {"k": "<b>"|e} }}', '{{ {"k": x|e} }}', {"x": "<b>"}), ({}, '{{ [1|tojson] }}', '{{ [x|tojson] }}', {"x": 1}),
+             ({}, '{{ [1, "a", (2.5, none)] }}', '{{ [x, "a", (2.5, none)] }}', {"x": 1}), ({}, '{{ 1e999 }}', '{{ x }}', {"x": float("inf")}),
+             ({"finalize": lambda v: Decimal(v) if isinstance(v, int) else v}, "{{ 1 }}", "{{ x }}", {"x": 1}),
+             ({"finalize": lambda v: MISSING if v is None else v}, "{{ none }}", "{{ x }}", {"x": None}),
+             ({"finalize": lambda v: Fraction(v) if isinstance(v, float) else v}, "{{ 0.5 }}", "{{ x }}", {"x": 0.5}),
+             ({"finalize": lambda v: [v] if isinstance(v, int) else v}, "{{ 1 }}", "{{ x }}", {"x": 1})]
+    probs = []
+    for cfg, const_src, twin_src, ctx in cases:
+        for is_async, mode in ((False, "render"), (True, "render"), (True, "render_async")):
+            env = NativeEnvironment(enable_async=is_async, **cfg)
+            try:
+                run = (lambda t, c: asyncio.run(t.render_async(**c))) if mode == "render_async" else (lambda t, c: t.render(**c))
+                got, want = run(env.from_string(const_src), {}), run(env.from_string(twin_src), ctx)
+            except Exception as ex:
+                probs.append(f"{const_src!r}: {type(ex).__name__}: {ex}")
+                break
+            if type(got) is not type(want) or repr(got) != repr(want):
+                probs.append(f"{const_src!r}{' with finalize' if cfg else ''} ({'async' if is_async else 'sync'} env, {mode}) returns {type(got).__name__} {got!r}; "
+                             f"its run-time twin {twin_src!r} with {ctx!r} returns {type(want).__name__} {want!r}")
+                break
+    return probs
 
 
 class GenBase(VC):
@@ -755,6 +903,7 @@ class ChildToConst(GenBase):
         I.specs["TemplateData.as_const"] = A.abstract_fn("as_const", returns="obj", raises=[nodes.Impossible])
         I.specs["Const.as_const"] = I.specs["TemplateData.as_const"]
         I.specs["Finfo.const"] = A.abstract_fn("finalize.const", returns="obj", raises=[nodes.Impossible])
+        install_literal_specs(I)
 
     def setup(self, I, st):
         from jinja2 import nodes
@@ -781,9 +930,30 @@ class ChildToConst(GenBase):
             return z3.And(safe, z3.BoolVal(out.returned and out.value is c and not fc))
         if len(fc) != 1 or fc[0].args[1:] != (c,) or fc[0].kwargs:
             return False
+        if out.raised and out.value.cls is nodes.Impossible:
+            # refusing to fold (the node is then evaluated at run time) is always sound
+            return safe
         return z3.And(safe, z3.BoolVal(out.value is fc[0].result))
 
-    posts = [("safe_repr_gate_and_finalize", p_gate)]
+    def p_roundtrip(self, pre, out):
+        """(hunt C34_1 / C34_2) a folded constant reaches native_concat only as its text str(c): it may be kept only if it is
+        a str or that text literal-evaluates back to the same value (same repr) - otherwise `{{ [x|safe] }}` with a constant x,
+        or a finalize returning a non-literal object, would return text where the run-time path returns the value itself"""
+        if self.is_data or out.raised:
+            return None
+        from pyvc.smt import str2obj
+        from pyvc.models import py_repr_obj
+        r = to_term(out.value, "obj")
+        t = str2obj(py_str_obj(r))
+        return z3.Or(isinst_fn(str)(r), z3.And(lit_ok(t), py_repr_obj(lit_val(t)) == py_repr_obj(r)))
+
+    posts = [("safe_repr_gate_and_finalize", p_gate), ("folded_constant_round_trips", p_roundtrip)]
+
+    def concretize(self, model, pre, out):
+        return {"method": self.method, "fold": True}
+
+    def finding_key(self, res):
+        return "folded-constant-not-checked-to-round-trip" if "round_trips" in res.name else "gate"
 
 
 class ChildPrePost(GenBase):
@@ -840,7 +1010,7 @@ def table_classes(task, tier, seed):
 # bounded stand-in: real NativeEnvironment on small templates
 # ------------------------------------------------------------------------------------------------
 
-FRAGS = ["1", "[", "]", ", ", "'a'", " ", "{{ a }}", "{{ b }}"]
+FRAGS = ["1", "[", "]", ", ", "'a'", " ", ".", "\n", "{{ a }}", "{{ b }}"]
 POOL_QUICK = [1, "2", None, [1], _OPQ, "a b"]
 POOL_THOROUGH = POOL_QUICK + [1.5, "", (1, 2), True, "]", "{[]: 1}"]
 
@@ -854,6 +1024,11 @@ def node_values(frags, ctx):
             out[-1] = _Data(out[-1] + f)
         else:
             out.append(_Data(f))
+    if frags and frags[-1] == "\n":
+        # the lexer drops one trailing newline of the template source (keep_trailing_newline is off)
+        out[-1] = _Data(out[-1][:-1])
+        if not out[-1]:
+            out.pop()
     return [str(v) if isinstance(v, _Data) else v for v in out]
 
 
@@ -917,7 +1092,7 @@ def bounded_render(task, tier, seed):
                         f["count"] += 1
     finally:
         loop.close()
-    task.bound_text = (f"all templates of 1..3 fragments over {FRAGS!r} (584 templates), variables a, b ranging over a pool of {len(pool)} values "
+    task.bound_text = (f"all templates of 1..3 fragments over {FRAGS!r} ({sum(len(FRAGS) ** k for k in (1, 2, 3))} templates), variables a, b ranging over a pool of {len(pool)} values "
                        f"(non-literal object included), each rendered with render, render_async and render in an async-enabled environment: {n_cases} renders")
     task.stats = {"renders": n_cases, "failing_classes": len(failures)}
     rs = [Res("C34.bounded.render", "bounded-ok", "native", 0, f"{n_cases} renders, {n_cases - sum(f['count'] for f in failures.values())} agree with the reference", "bounded")]
